@@ -82,6 +82,9 @@ class Tracer:
         self.facts = facts
         self.body = body
         self.memo = {}
+        self._open = set()
+        self._hits = []
+        self._budget = 20000     # recomputations allowed for values seen only inside an open cycle
         self._inprog = set()
         self.maxdepth = maxdepth
 
@@ -183,11 +186,34 @@ class Tracer:
 
     def local(self, l, depth=0):
         if l in self.memo:
-            return self.memo[l]
+            m = self.memo[l]
+            if m.kind == "cycle" and m[1] == l and l in self._open:
+                self._hits.append(l)
+            return m
         if depth > self.maxdepth:
             return N("unknown", "depth")
         b = self.body
         self.memo[l] = N("cycle", l)
+        self._open.add(l)
+        mark = len(self._hits)
+        try:
+            node = self._local_uncached(l, depth)
+        finally:
+            self._open.discard(l)
+        # a value computed while an *enclosing* local was still open contains that local's cycle marker instead of its value:
+        # it is valid only inside that computation and must not be remembered for later queries
+        partial = any(h != l and h in self._open for h in self._hits[mark:])
+        if not self._open:
+            del self._hits[:]
+        if partial and self._budget > 0:
+            self._budget -= 1
+            del self.memo[l]
+        else:
+            self.memo[l] = node
+        return node
+
+    def _local_uncached(self, l, depth):
+        b = self.body
         if 1 <= l <= b.argc and not b.defs.get(l):
             node = N("param", l, b.names.get(l, "_%d" % l), b.locals[l]["s"])
         else:
@@ -202,7 +228,6 @@ class Tracer:
                 if 1 <= l <= b.argc:
                     nodes.append(N("param", l, b.names.get(l, "_%d" % l), b.locals[l]["s"]))
                 node = nodes[0] if len(nodes) == 1 else N("phi", tuple(_dedup(nodes)))
-        self.memo[l] = node
         return node
 
     def _def_node(self, bi, si, s, depth):
@@ -217,6 +242,8 @@ class Tracer:
         args = tuple(self.operand(a, depth + 1) for a in t["args"])
         if c is None:
             return N("calli", self.operand(t["func"], depth + 1), args, bi)
+        if c["name"] in ("inspect", "inspect_err") and args and (c["dp"].startswith("core::option::") or c["dp"].startswith("core::result::")):
+            return args[0]      # returns its receiver unchanged; the closure only observes it by reference
         return N("call", c["def"], c["path"], args, bi, c.get("res") or c["dp"], c["name"])
 
     def rvalue(self, rv, depth=0, at=None):
@@ -255,7 +282,7 @@ def _proj_sig(projs):
             if "f" in e:
                 out.append(("f", e["i"]))
             elif "as" in e:
-                out.append(("as", e["v"]))
+                out.append(("as", e.get("v", e["as"])))
             else:
                 out.append(tuple(sorted((k, str(v)) for k, v in e.items())))
         else:
@@ -475,6 +502,66 @@ def const_eval(node, env=None):
         vals = set(const_eval(n, env) for n in node[1])
         if len(vals) == 1:
             return vals.pop()
+    if k == "cindex":
+        bs = const_bytes(node[1], env)
+        if bs is not None and isinstance(node[2], int) and 0 <= node[2] < len(bs):
+            return bs[len(bs) - node[2]] if node[3] else bs[node[2]]
+    if k == "call" and node[6] == "port" and node[3]:
+        a = _new_args(node[3][0], "SocketAddr")
+        if a and len(a) == 2:
+            return const_eval(a[1], env)
+    return None
+
+
+def _new_args(node, what):
+    """Arguments of a `<what..>::new(..)` constructor call that `node` evaluates to (through refs / moves), else None."""
+    n = strip(node)
+    while n.kind in ("ref", "deref"):
+        n = strip(n[1])
+    if n.kind == "call" and n[6] == "new" and what in n[1] + n[2]:
+        return n[3]
+    return None
+
+
+def _const_ip(node, env=None):
+    n = strip(node)
+    while n.kind in ("ref", "deref"):
+        n = strip(n[1])
+    if n.kind == "call" and n[6] == "ip" and n[3]:
+        a = _new_args(n[3][0], "SocketAddr")
+        return _const_ip(a[0], env) if a else None
+    if n.kind == "constx":
+        nm, ty = (n[1] or ""), (n[2] or "")
+        v6 = "Ipv6Addr" in ty or "Ipv6Addr" in nm
+        if nm.endswith("UNSPECIFIED"):
+            return [0] * (16 if v6 else 4)
+        if nm.endswith("LOCALHOST"):
+            return [0] * 15 + [1] if v6 else [127, 0, 0, 1]
+        if nm.endswith("BROADCAST"):
+            return [255] * 4
+        return None
+    a = _new_args(n, "Ipv4Addr")
+    if a and len(a) == 4:
+        vs = [const_eval(x, env) for x in a]
+        return None if any(v is None for v in vs) else vs
+    return None
+
+
+def const_bytes(node, env=None):
+    """Byte image of a constant-valued array expression (to_be_bytes / to_le_bytes of a constant, octets() of a constant address)."""
+    n = strip(node)
+    while n.kind in ("ref", "deref"):
+        n = strip(n[1])
+    if n.kind == "call" and n[6] in ("to_be_bytes", "to_le_bytes") and n[3]:
+        v = const_eval(n[3][0], env)
+        m = re.search(r"impl [ui](\d+)", n[1] + " " + n[2])
+        if v is None or not m:
+            return None
+        w = int(m.group(1)) // 8
+        bs = [(v >> (8 * i)) & 0xFF for i in range(w)]
+        return bs if n[6] == "to_le_bytes" else bs[::-1]
+    if n.kind == "call" and n[6] == "octets" and n[3]:
+        return _const_ip(n[3][0], env)
     return None
 
 
@@ -816,6 +903,16 @@ class Explorer:
                     store.pop(d["l"], None)
                     # `?` on a value whose variant is known on this path (a helper inlined by normalize.py returns
                     # Ok / Err / Some / None on distinct paths): Try::branch maps Ok|Some -> Continue, Err|None -> Break
+                    cc = callee(t)
+                    if cc and cc["name"] == "from_residual" and d["l"] in self.discr_locals:
+                        # `?` inside an inlined helper: the helper's result on this path is the failure variant
+                        dadt = (self.body.locals[d["l"]].get("adt") or "")
+                        want = "Err" if dadt.endswith("result::Result") else "None" if dadt.endswith("option::Option") else None
+                        fa = self.facts.adts.get(dadt)
+                        if want and fa:
+                            for var in fa["variants"]:
+                                if var["name"] == want:
+                                    store[d["l"]] = ("V", dadt, var["idx"])
                     if _is_try_branch(t) and t["args"]:
                         v = self._const_of(t["args"][0], store)
                         if isinstance(v, tuple) and v and v[0] == "V":
